@@ -26,7 +26,7 @@ CHECKS = {
     "C01": {"level": "exploration", "tests": [hist("TestC01"), hist("TestC01Big", q=300, t=6000, steps=8, tsteps=10), direct("TestWiringC01", q=25, t=150, shards=4)], "assumptions": COMMON_ASSUMPTIONS},
     "C02": {"level": "exploration", "tests": [hist("TestC02")], "assumptions": COMMON_ASSUMPTIONS},
     "C03": {"level": "exploration", "tests": [hist("TestC03"), hist("TestC03Big", q=300, t=6000, steps=8, tsteps=10)], "assumptions": COMMON_ASSUMPTIONS},
-    "C04": {"level": "exploration", "tests": [hist("TestC04"), hist("TestC04Big", q=300, t=6000, steps=8, tsteps=10)], "assumptions": COMMON_ASSUMPTIONS},
+    "C04": {"level": "exploration", "tests": [hist("TestC04"), direct("TestC04Direct", q=2000, t=200000), hist("TestC04Big", q=300, t=6000, steps=8, tsteps=10)], "assumptions": COMMON_ASSUMPTIONS},
     "C05": {"level": "exploration", "tests": [
         det("TestC05Grid"),
         direct("TestC05Random", q=100000, t=20000000), hist("TestC05History"), direct("TestWiringC05", q=25, t=150, shards=4)], "assumptions": COMMON_ASSUMPTIONS},
